@@ -20,8 +20,8 @@
      value if [k] was only created as a prefix, absent if never assigned or
      removed since (C10/ConfigSpec.v, 40 lines).  [obs] merges the three
      "nothing removed" result classes. *)
-From MptV Require Import Base.Mem C10.ConfigModel C10.ConfigSpec C10.PathProofs C10.TreeQuery
-  C10.TreeOps C10.TreeAssign C10.StoreRefine.
+From MptV Require Import Base.Mem C10.ConfigModel C10.ConfigSpec C10.PathProofs C10.PathAdd C10.TreeQuery
+  C10.TreeOps C10.TreeAssign C10.StoreRefine C10.ItemProofs C10.RootRefine.
 
 (* ---- paths ---- *)
 
@@ -34,6 +34,31 @@ Theorem C10_path_elements :
     path_set p0 (Some s) (Some (length s)) = Done (p, n) /\ pwf p /\
     pwalk p = Done (split (psep p0) (upto (passign p0) s)).
 Proof. exact path_elements_len. Qed.
+
+(* The same for a C string (mpt_path_set(path, str, -1), as mpt_config_set / mpt_config_get
+   and the C++ path constructor from a string call it): the components of the string up
+   to its NUL and up to the assign character; with assign = 0 this is the key [str_key]
+   the specification uses. *)
+Theorem C10_path_elements_string :
+  forall p0 s, exists p n,
+    path_set p0 (Some (s ++ [0%N])) None = Done (p, n) /\ pwf p /\
+    elems p = split (psep p0) (upto (passign p0) (upto 0%N s)) /\
+    psep p = psep p0 /\ passign p = passign p0 /\ poff p = 0 /\ plen p <> 0.
+Proof. exact path_set_str_spec. Qed.
+
+Theorem C10_string_key :
+  forall s sep, exists p, str_path s sep 0%N = Done p /\ pwf p /\ elems p = str_key s sep.
+Proof. exact str_path_key. Qed.
+
+(* Rebuilding: adding the elements one after the other with mpt_path_add (separator
+   mode, array storage, [build] = post bytes + mpt_path_add per element) gives a
+   well-formed path that walks back to exactly those elements, for every element
+   length (none may contain the separator — mpt_path_add refuses that — and the
+   first must be non-empty: nothing can be added to a path without storage). *)
+Theorem C10_path_rebuild :
+  forall sep assign es, es <> [] -> hd [] es <> [] -> Forall (nosep sep) es ->
+  exists p, build (path_init sep assign) es = Done p /\ pwf p /\ elems p = es /\ pwalk p = Done es.
+Proof. exact path_rebuild. Qed.
 
 (* one step of the walk, for every well-formed path *)
 Theorem C10_path_next_element :
@@ -55,6 +80,14 @@ Theorem C10_config_refines_map :
   forall ops, Forall op_ok ops ->
     map obs (fst (crun [] ops)) = map obs (fst (srun [] (map hop_of ops) (fst (crun [] ops)))).
 Proof. exact (fun ops H => crun_refines ops [] [] R_init H). Qed.
+
+(* The private C++ configuration (config::root over config_item slot arrays with
+   unused-slot reuse, eager removal [RRemove] and lazy removal [RDrop]) refines the
+   SAME specification. *)
+Theorem C10_root_refines_map :
+  forall ops, Forall rop_ok ops ->
+    map obs (fst (rrun [] ops)) = map obs (fst (srun [] (map rhop_of ops) (fst (rrun [] ops)))).
+Proof. exact (fun ops H => rrun_refines ops [] [] RI_init H). Qed.
 
 (* The same per operation, from any reachable state: the refinement relation
    (sibling names unique, reading of every key equal) is kept. *)
@@ -107,7 +140,25 @@ Example C10_long_element_walk :
   pwalk (mk (repeat 120 257 ++ [46] ++ repeat 121 256)) = Done [bs (repeat 120 257); bs (repeat 121 256)].
 Proof. vm_compute. reflexivity. Qed.
 
+Example C10_root_history_example :
+  fst (rrun [] [RAssign (mk [97;46;98]) (bs [1]); RAssign (mk [99]) (bs [2]); RRemove (mk [97]);
+                RAssign (mk [100;46;98]) (bs [3]); RQuery (mk [97;46;98]); RQuery (mk [100;46;98]); RQuery (mk [99])])
+  = [OutRc RcOk; OutRc RcOk; OutRc RcRemoved; OutRc RcOk; OutEntry Absent;
+     OutEntry (Exists (Some (bs [3]))); OutEntry (Exists (Some (bs [2])))].
+Proof. vm_compute. reflexivity. Qed.
+
+Example C10_rebuild_example :
+  match build (path_init 46%N 0%N) [bs (repeat 120 300); bs []; bs [98;99]] with
+  | Done p => pwalk p = Done [bs (repeat 120 300); bs []; bs [98;99]] /\ pfirst p = 0
+  | _ => False
+  end.
+Proof. vm_compute. split; reflexivity. Qed.
+
 Print Assumptions C10_path_elements.
+Print Assumptions C10_path_elements_string.
+Print Assumptions C10_string_key.
+Print Assumptions C10_path_rebuild.
+Print Assumptions C10_root_refines_map.
 Print Assumptions C10_path_next_element.
 Print Assumptions C10_config_refines_map.
 Print Assumptions C10_step_refines.
